@@ -12,7 +12,7 @@ REG.assumptions += [
 REG.undecided += [
     'sign of the edge / corner geometric factors and monotone decrease of the volume factor over the whole admissible k range: transcendental inequalities outside NRA '
     '(grain-boundary site: polynomial, proved); left to an interval argument not built here',
-    'impingement rate / incubation time positivity for the thermodynamics-dependent beta functions (values come from the backend)',
+    'positivity of the tracer diffusivities / impingement factor returned by the thermodynamics backend (assumed positive in the impingement-rate contract; C10 proves tracer diffusivity = R*T*M)',
 ]
 NUC = 'kawin.precipitation.parameters.Nucleation'
 NR = 'kawin.precipitation.NucleationRate'
@@ -146,6 +146,101 @@ def c_rate(ctx, it, cfg):
     ctx.prove('incubation-factor-at-most-one', implies(gt(G, 0), le(rate, steady)))
     Rn = it.get(NR, 'nucleationRadius')(T, R, prm)
     ctx.prove('nucleation-radius-not-below-critical-radius', ge(Rn, R))
+
+
+@REG.contract('impingement-rate', [NR + ':betaBinary1', NR + ':betaBinary2', NR + ':betaMulti'],
+              configs=[dict(name='%s,%s' % (s, f), site=s, form=f) for s in ('bulk', 'grain boundaries') for f in ('scalar', 'array')])
+def c_beta(ctx, it, cfg):
+    """the three impingement-rate functions, for ANY thermodynamics object that returns positive tracer diffusivities / a positive impingement factor and
+    interfacial compositions strictly inside (0,1): the rate is finite, non-negative, zero exactly for a vanishing critical radius, equals the stated
+    formula and -- for arrays -- entry i is computed from composition, temperature and radius i only"""
+    prm = PrecStub(ctx, it, cfg['site'])
+    prm.phase = 'BETA'
+    fa = prm.nucleation.areaFactor + 0          # its VALUE before any rate is evaluated (the cached factor is a 0-d array object)
+    ctx.assume(gt(fa, 0))     # area factor of an admissible site (bulk 4 pi; boundary sites: positive inside the admissible range)
+
+    class Vol(object):
+        a = real(ctx, 'a', lambda v: v > 0)
+
+    class Mat(object):
+        volume = Vol()
+    mat = Mat()
+    ufun = lambda name, nargs, positive=False: ufunc(ctx, name, nargs, (lambda v, *a: v > 0) if positive else None)
+    Dfun = [ufun('D%d' % j, 2, positive=True) for j in range(2)]
+    Ifun = ufun('impFactor', 2, positive=True)
+    xAf = ufun('xEqAlpha', 1)
+    xBf = ufun('xEqBeta', 1)
+    seen = {'D': [], 'I': [], 'IC': []}
+
+    class Therm(object):
+        def getTracerDiffusivity(self, x, T, removeCache=False):
+            seen['D'].append((x, T, removeCache))
+            if isinstance(x, Masked):
+                xs_, Ts_ = x.src, T.src
+                return MaskedRows(x.n, 2, lambda i, j: ite(eq(j, 0), Dfun[0](xs_(i), Ts_(i)), Dfun[1](xs_(i), Ts_(i))), x.mask, x.maskobj)
+            if len(x.shape) == 1:
+                n = x.shape[0]
+                return Arr((n, 2), lambda i, j: ite(eq(j, 0), Dfun[0](x.get(i), T.get(i)), Dfun[1](x.get(i), T.get(i))), 'real')
+            return Arr((2,), lambda j: ite(eq(j, 0), Dfun[0](x, T), Dfun[1](x, T)), 'real')
+
+        def getInterfacialComposition(self, T, gExtra, precPhase=None):
+            seen['IC'].append((T, gExtra, precPhase))
+            if isinstance(T, Masked):
+                return (T.map(xAf), T.map(xBf))
+            n = T.shape[0]
+            return (Arr((n,), lambda i: xAf(T.get(i)), 'real'), Arr((n,), lambda i: xBf(T.get(i)), 'real'))
+
+        def impingementFactor(self, x, T, precPhase=None, removeCache=False, searchDir=None):
+            seen['I'].append((x, T, precPhase, removeCache, searchDir))
+            return Ifun(x.get(0), T)
+    th = Therm()
+    rc = boolean(ctx, 'removeCache')
+    cached = snapshot(prm.nucleation)
+    if cfg['form'] == 'scalar':
+        x = real(ctx, 'x', lambda v: and_(v > 0, v < 1))
+        T = real(ctx, 'T', lambda v: v > 0)
+        R = real(ctx, 'Rcrit', lambda v: v >= 0)
+        b1 = it.get(NR, 'betaBinary1')(th, x, T, R, mat, prm, rc)
+        ctx.prove('binary-1/non-negative-and-zero-exactly-without-a-nucleus', and_(ge(b1, 0), eq(b1, 0) == eq(R, 0)))
+        ctx.prove('binary-1/formula', eq(b1, fa * R * R * x * Dfun[1](x, T) / (mat.volume.a ** 4)))
+        xA = real(ctx, 'xA', lambda v: and_(v > 0, v < 1))
+        xB = real(ctx, 'xB', lambda v: and_(v > 0, v <= 1))
+        ctx.assume(xA != xB)
+        b2 = it.get(NR, 'betaBinary2')(th, x, T, R, mat, prm, xA, xB, rc)
+        ctx.prove('binary-2/non-negative-and-zero-exactly-without-a-nucleus', and_(ge(b2, 0), eq(b2, 0) == eq(R, 0)))
+        Df = (xB - xA) ** 2 / (xA * Dfun[1](x, T)) + (xB - xA) ** 2 / ((1 - xA) * Dfun[0](x, T))
+        ctx.prove('binary-2/formula', implies(gt(R, 0), eq(b2 * Df * mat.volume.a ** 4, fa * R * R)))
+        x2 = Arr((2,), lambda j: ite(eq(j, 0), x, 1 - x), 'real')
+        sd = object()
+        bm = it.get(NR, 'betaMulti')(th, x2, T, R, mat, prm, rc, searchDir=sd)
+        ctx.prove('multi/non-negative-and-zero-exactly-without-a-nucleus', and_(ge(bm, 0), eq(bm, 0) == eq(R, 0)))
+        ctx.prove('multi/formula', implies(gt(R, 0), eq(bm, Ifun(x, T) * fa * R * R / mat.volume.a ** 4)))
+        ctx.prove('multi/backend-asked-for-the-precipitate-phase-with-the-callers-options',
+                  all(c[2] == 'BETA' and c[3] is rc and c[4] is sd for c in seen['I']))
+        ctx.prove('binary/backend-asked-with-the-callers-cache-option', all(c[2] is rc for c in seen['D']) and len(seen['D']) >= 2)
+        frame(ctx, 'nucleation-parameters', prm.nucleation, cached)       # evaluating a rate leaves the cached geometric factors alone
+        ctx.prove('area-factor-unchanged-by-the-evaluations', eq(prm.nucleation.areaFactor, fa))
+        ctx.prove('canary/rate-independent-of-radius', eq(b1, fa * x * Dfun[1](x, T) / (mat.volume.a ** 4)), expect='refuted')
+        return
+    N = integer(ctx, 'N', lambda v: v >= 1)
+    xs = array(ctx, 'x', (N,), fact=lambda v, i: and_(v > 0, v < 1))
+    Ts = array(ctx, 'T', (N,), fact=lambda v, i: v > 0)
+    Rs = array(ctx, 'Rcrit', (N,), fact=lambda v, i: v >= 0)
+    ctx.assume(N >= 2)
+    i = integer(ctx, 'i', lambda v: and_(v >= 0, v < N))
+    b1 = it.get(NR, 'betaBinary1')(th, xs, Ts, Rs, mat, prm, rc)
+    ctx.prove('binary-1/entry-i-from-point-i', eq(b1.get(i), ite(eq(Rs.get(i), 0), 0, fa * Rs.get(i) ** 2 * xs.get(i) * Dfun[1](xs.get(i), Ts.get(i)) / mat.volume.a ** 4)), inst=[i])
+    ctx.prove('binary-1/non-negative', ge(b1.get(i), 0), inst=[i])
+    b2 = it.get(NR, 'betaBinary2')(th, xs, Ts, Rs, mat, prm, removeCache=rc)
+    ctx.assume(and_(gt(xAf(Ts.get(i)), 0), lt(xAf(Ts.get(i)), 1), gt(xBf(Ts.get(i)), 0), xAf(Ts.get(i)) != xBf(Ts.get(i))))
+    xA, xB = xAf(Ts.get(i)), xBf(Ts.get(i))
+    Df = (xB - xA) ** 2 / (xA * Dfun[1](xs.get(i), Ts.get(i))) + (xB - xA) ** 2 / ((1 - xA) * Dfun[0](xs.get(i), Ts.get(i)))
+    ctx.prove('binary-2/entry-i-from-point-i-with-the-planar-phase-boundary', and_(implies(eq(Rs.get(i), 0), eq(b2.get(i), 0)),
+              implies(gt(Rs.get(i), 0), eq(b2.get(i) * Df * mat.volume.a ** 4, fa * Rs.get(i) ** 2))), inst=[i])
+    ctx.prove('binary-2/non-negative', ge(b2.get(i), 0), inst=[i])
+    ctx.prove('binary-2/phase-boundary-asked-for-the-precipitate-phase', len(seen['IC']) == 1 and seen['IC'][0][2] == 'BETA')
+    frame(ctx, 'nucleation-parameters', prm.nucleation, cached)
+    ctx.prove('area-factor-unchanged-by-the-evaluations', eq(prm.nucleation.areaFactor, fa))
 
 
 _SETTERS = [('gamma', lambda ctx, n, k: setattr(n, 'gamma', real(ctx, 'gamma%d' % k, lambda v: v > 0))),
